@@ -159,3 +159,123 @@ theorem truncate_eq (v : Int) (n : Nat) (h0 : 0 < n) (h8 : n ≤ 8) (s : Bool) :
       rw [hb1, toI64_nat]
 
 end Cppcheck.Trunc
+
+namespace Cppcheck.Trunc
+
+/-- masking a bigint with `(1ULL<<b)-1` is the non-negative residue modulo 2^b -/
+theorem mask_low (r : Int) (b : Nat) (hb : b < 64) : toI64 (toU64 r &&& (2 ^ b - 1)) = r % ((2 ^ b : Nat) : Int) := by
+  rw [Nat.and_two_pow_sub_one_eq_mod]
+  have hle : 2 ^ b ≤ 2 ^ 63 := Nat.pow_le_pow_right (by decide) (by omega)
+  have hpos : 0 < 2 ^ b := Nat.two_pow_pos b
+  have hx : toU64 r % 2 ^ b < 2 ^ b := Nat.mod_lt _ hpos
+  rw [toI64_of_lt (by omega)]
+  have hdvd : ((2 ^ b : Nat) : Int) ∣ (2 ^ 64 : Int) := by
+    have : (2 ^ 64 : Nat) = 2 ^ b * 2 ^ (64 - b) := by rw [← Nat.pow_add]; congr 1; omega
+    exact ⟨((2 ^ (64 - b) : Nat) : Int), by exact_mod_cast this⟩
+  rw [Int.natCast_emod, toU64_cast, Int.emod_emod_of_dvd _ hdvd]
+
+end Cppcheck.Trunc
+
+
+namespace Cppcheck.Trunc
+
+theorem sane_unpack {s : IntShape} (h : s.sane = true) :
+    8 ≤ s.charBit ∧ s.charBit < s.intBit ∧ s.charBit ≤ s.shortBit ∧ s.shortBit ≤ s.intBit ∧ s.intBit ≤ s.longBit ∧
+    s.longBit ≤ s.llongBit ∧ s.llongBit ≤ 64 := by
+  simp only [IntShape.sane, Bool.and_eq_true, decide_eq_true_eq] at h
+  omega
+
+theorem bmod64_of_unsigned64 (v : Int) (h0 : 0 ≤ v) (h1 : v < 2 ^ 63) : Int.bmod (2 ^ 64 - 1 - v) (2 ^ 64) = -v - 1 := by
+  rw [Int.bmod_def]
+  have e : ((2 ^ 64 : Nat) : Int) = 2 ^ 64 := by norm_cast
+  rw [e]
+  split <;> omega
+
+/-- `~` on an unsigned operand of exactly `b` bits, as the masked 64-bit complement -/
+theorem bnot_masked (v : Int) (b : Nat) (hb : b < 64) (h0 : 0 ≤ v) (h1 : v < 2 ^ b) :
+    toI64 (toU64 (-v - 1) &&& (2 ^ b - 1)) = 2 ^ b - 1 - v := by
+  rw [mask_low _ b hb]
+  have hc : ((2 ^ b : Nat) : Int) = (2 : Int) ^ b := by norm_cast
+  rw [hc]
+  have hpos : (0 : Int) < 2 ^ b := Int.pow_pos (by decide)
+  rw [← Int.add_emod_right (-v - 1) (2 ^ b), Int.emod_eq_of_lt (by omega) (by omega)]
+  omega
+
+/-- unsigned operand whose type is not `unsigned int` / `unsigned long`: no mask -/
+theorem foldUnary_bnot_nomask (v : Int) (u : Bool) (ty : ITy) (ib lb : Nat) (h : u = false ∨ (ty ≠ .int ∧ ty ≠ .long)) :
+    foldUnary .bnot v u ty ib lb = some (-v - 1) := by
+  rcases h with h | ⟨h1, h2⟩
+  · subst h; simp [foldUnary]
+  · cases u <;> simp [foldUnary, h1, h2]
+
+theorem foldUnary_bnot_eq (s : IntShape) (hs : s.sane = true) (ty : ITy) (u : Bool) (v : Int)
+    (hv : inOperand v s ty u = true) (hbig : -(2 ^ 63) ≤ v ∧ v < 2 ^ 63)
+    (h1 : ¬ (u = true ∧ ty = .short ∧ s.shortBit = s.intBit)) (h2 : ¬ (u = true ∧ ty = .longlong ∧ s.llongBit < 64)) :
+    foldUnary .bnot v u ty s.intBit s.longBit = some (Int.bmod (cUnary .bnot v (s.bits ty) u s.intBit) (2 ^ 64)) := by
+  obtain ⟨c8, cci, ccs, csi, cil, cll, c64⟩ := sane_unpack hs
+  cases u with
+  | false =>
+    rw [foldUnary_bnot_nomask v false ty _ _ (Or.inl rfl)]
+    have : cUnary .bnot v (s.bits ty) false s.intBit = -v - 1 := by
+      simp only [cUnary, promote]; split <;> simp
+    rw [this, bmod_of_range (by omega) (by omega)]
+  | true =>
+    -- range of an unsigned operand
+    have hrange : ty ≠ .bool ∧ 0 ≤ v ∧ v < 2 ^ (s.bits ty) := by
+      by_cases hb : ty = .bool
+      · simp [inOperand, hb] at hv
+      · simp only [inOperand, hb, if_false, inType, if_true, Bool.and_eq_true, decide_eq_true_eq] at hv
+        exact ⟨hb, hv.1, hv.2⟩
+    obtain ⟨hnb, h0, hlt⟩ := hrange
+    -- narrow operands are promoted to int
+    have narrow : ∀ b, b < s.intBit → cUnary .bnot v b true s.intBit = -v - 1 := by
+      intro b hb; simp [cUnary, promote, hb]
+    have wide : ∀ b, ¬ b < s.intBit → cUnary .bnot v b true s.intBit = 2 ^ b - 1 - v := by
+      intro b hb; simp [cUnary, promote, hb]
+    cases ty with
+    | bool => exact absurd rfl hnb
+    | char =>
+      rw [foldUnary_bnot_nomask v true .char _ _ (Or.inr ⟨by decide, by decide⟩), narrow (s.bits .char) cci, bmod_of_range (by omega) (by omega)]
+    | short =>
+      have : s.shortBit < s.intBit := by
+        have : s.shortBit ≠ s.intBit := fun e => h1 ⟨rfl, rfl, e⟩
+        omega
+      rw [foldUnary_bnot_nomask v true .short _ _ (Or.inr ⟨by decide, by decide⟩), narrow (s.bits .short) this, bmod_of_range (by omega) (by omega)]
+    | longlong =>
+      have h64 : s.llongBit = 64 := by
+        have : ¬ s.llongBit < 64 := fun e => h2 ⟨rfl, rfl, e⟩
+        omega
+      rw [foldUnary_bnot_nomask v true .longlong _ _ (Or.inr ⟨by decide, by decide⟩), wide (s.bits .longlong) (by simp only [IntShape.bits]; omega)]
+      simp only [IntShape.bits, h64]
+      rw [bmod64_of_unsigned64 v h0 hbig.2]
+    | int =>
+      simp only [IntShape.bits] at hlt
+      rw [wide (s.bits .int) (by simp only [IntShape.bits]; omega)]
+      simp only [IntShape.bits]
+      by_cases h64 : s.intBit < 64
+      · have hpos : 0 < s.intBit := by omega
+        have hle : (2 : Int) ^ s.intBit ≤ 2 ^ 63 := by
+          have : 2 ^ s.intBit ≤ 2 ^ 63 := Nat.pow_le_pow_right (by decide) (by omega)
+          exact_mod_cast this
+        simp only [foldUnary, if_true, hpos, h64, and_self]
+        rw [bnot_masked v _ h64 h0 hlt, bmod_of_range (by omega) (by omega)]
+      · have e : s.intBit = 64 := by omega
+        simp only [foldUnary, if_true, e, show ¬ ((0 : Nat) < 64 ∧ (64 : Nat) < 64) from by decide, if_false]
+        rw [bmod64_of_unsigned64 v h0 hbig.2]
+    | long =>
+      simp only [IntShape.bits] at hlt
+      rw [wide (s.bits .long) (by simp only [IntShape.bits]; omega)]
+      simp only [IntShape.bits]
+      by_cases h64 : s.longBit < 64
+      · have hpos : 0 < s.longBit := by omega
+        have hle : (2 : Int) ^ s.longBit ≤ 2 ^ 63 := by
+          have : 2 ^ s.longBit ≤ 2 ^ 63 := Nat.pow_le_pow_right (by decide) (by omega)
+          exact_mod_cast this
+        simp only [foldUnary, if_true, show (ITy.long = ITy.int) = False from by simp, if_false, hpos, h64, and_self]
+        rw [bnot_masked v _ h64 h0 hlt, bmod_of_range (by omega) (by omega)]
+      · have e : s.longBit = 64 := by omega
+        simp only [foldUnary, if_true, show (ITy.long = ITy.int) = False from by simp, if_false, e,
+          show ¬ ((0 : Nat) < 64 ∧ (64 : Nat) < 64) from by decide]
+        rw [bmod64_of_unsigned64 v h0 hbig.2]
+
+end Cppcheck.Trunc
